@@ -228,16 +228,18 @@ class ObjExec(AbsExec):
             raise Internal("TypeError", f"`{unparse(e)[:60]}`: too many positional arguments", e)
         env = dict(c.env)
         defaults = [None] * (len(names) - len(a.defaults)) + list(a.defaults)
-        for n, d in zip(names, defaults):
+        # default values are evaluated once, when the function is defined: every call sees the same objects (a mutable default is shared)
+        cache = self.__dict__.setdefault("_default_values", {})
+        for n, d in list(zip(names, defaults)) + [(x.arg, d_) for x, d_ in zip(a.kwonlyargs, a.kw_defaults)]:
             if d is not None:
-                env[n] = self.ev(d, c.env)
+                key = (id(node), n)
+                if key not in cache:
+                    cache[key] = (node, self.ev(d, c.env))
+                env[n] = cache[key][1]
         for n, v in zip(names, args):
             env[n] = v
         if a.vararg is not None:
             env[a.vararg.arg] = tuple(args[len(names):])
-        for x, d in zip(a.kwonlyargs, a.kw_defaults):
-            if d is not None:
-                env[x.arg] = self.ev(d, c.env)
         known = set(names) | {x.arg for x in a.kwonlyargs}
         posonly = {x.arg for x in a.posonlyargs}
         extra = {}
